@@ -51,7 +51,10 @@ func (f *FMPURI) UseTLS() bool {
 }
 
 func (f *FMPURI) String() string {
-	return fmt.Sprintf("%s://%s", f.Scheme, f.HostPort)
+	// Let net/url render the authority, so that what ParseFMPURI got
+	// unescaped (the '%' of an IPv6 zone) is escaped again and the
+	// result parses back to the same value.
+	return (&url.URL{Scheme: f.Scheme, Host: f.HostPort}).String()
 }
 
 func (f *FMPURI) DialWithConfig(config *tls.Config) (net.Conn, error) {
